@@ -26,30 +26,30 @@ Proof. exact oinv_one_per_slot. Qed.
 Print Assumptions C13_one_upvalue_per_slot.
 
 (* UNBOUNDED refinement.  From any base address b and capacity c, for EVERY operation sequence
-   of the fixed machine (fixed_op: every operation except the as-found tail call) that satisfies
-   the discipline D (a slot whose variable instance is still referenced by a closure is closed
-   before it is popped or given to a new variable instance; return and the tail call close by
-   themselves) and never pushes beyond the capacity: the reads of the implementation machine
-   (addresses, open list, closing, tail calls reusing the frame, growth to arbitrary new bases)
-   equal the reads of the store-semantics spec in which every variable instance is a cell and a
-   closure holds cells.  Proof: simulation relation R (open upvalue = cell of the live slot it
-   points at; closed upvalue owns its cell; handles equal iff cells equal), preserved by every
-   operation (C13_simulation_step). *)
-Theorem C13_refines : forall b c l, 0 <= c -> forallb fixed_op l = true ->
+   that satisfies the discipline D (a slot whose variable instance is still referenced by a
+   closure is closed before it is popped or given to a new variable instance; return and the
+   fixed tail call close by themselves; the as-found tail call is admitted only when no closure
+   refers to the frame) and never pushes beyond the capacity: the reads of the implementation
+   machine (addresses, open list, closing, tail calls reusing the frame, growth to arbitrary
+   new bases) equal the reads of the store-semantics spec in which every variable instance is a
+   cell and a closure holds cells.  Proof: simulation relation R (open upvalue = cell of the
+   live slot it points at; closed upvalue owns its cell; handles equal iff cells equal),
+   preserved by every operation (C13_simulation_step). *)
+Theorem C13_refines : forall b c l, 0 <= c ->
   D init_sst l = true -> fits_run (init_st b c) l = true ->
   out (run (init_st b c) l) = sout (srun init_sst l).
 Proof. exact refines. Qed.
 Print Assumptions C13_refines.
 
-Theorem C13_simulation_step : forall s t o, R s t -> fixed_op o = true -> ok t o = true -> fits s o = true ->
+Theorem C13_simulation_step : forall s t o, R s t -> ok t o = true -> fits s o = true ->
   R (step s o) (sstep t o).
 Proof. exact sim_step. Qed.
 Print Assumptions C13_simulation_step.
 
 (* the same from any pair of related states (e.g. in the middle of a run) *)
-Theorem C13_refines_from : forall l s t, R s t -> forallb fixed_op l = true -> D t l = true ->
+Theorem C13_refines_from : forall l s t, R s t -> D t l = true ->
   fits_run s l = true -> out (run s l) = sout (srun t l).
-Proof. intros l s t HR X HD HF. apply (r_out _ _ (sim_run l s t HR X HD HF)). Qed.
+Proof. intros l s t HR HD HF. apply (r_out _ _ (sim_run l s t HR HD HF)). Qed.
 Print Assumptions C13_refines_from.
 
 (* The discipline D is NECESSARY (1): a slot that still has an open upvalue is given to a new
